@@ -57,6 +57,9 @@ func (a *AddPartitionsToTxnResponse) decode(pd packetDecoder, version int16) (er
 		if err != nil {
 			return err
 		}
+		if m < 0 {
+			return errInvalidArrayLength
+		}
 
 		a.Errors[topic] = make([]*PartitionError, m)
 
